@@ -209,7 +209,11 @@ func CheckPositionals(rr *RealResult, ref *RefResult) string {
 			continue
 		}
 		if !ValEqual(f.Interface(), want) {
-			return fmt.Sprintf("positional %s holds %s, expected %s", k, ShowVal(f.Interface()), ShowVal(want))
+			note := ""
+			if why := rr.B.Detached[k]; why != "" {
+				note = " [the caller's struct does not contain this field: " + why + ", although the positional is registered]"
+			}
+			return fmt.Sprintf("positional %s holds %s, expected %s%s", k, ShowVal(f.Interface()), ShowVal(want), note)
 		}
 	}
 	return ""
